@@ -638,7 +638,15 @@ impl Rasn {
             | ASN1Type::ObjectClassField(_)
             | ASN1Type::EmbeddedPdv
             | ASN1Type::External => (vec![], quote!(Any)),
-            ASN1Type::ChoiceSelectionType(_) => unreachable!(),
+            // a selection type that could not be linked (unknown alternative) stays in place
+            ASN1Type::ChoiceSelectionType(_) => {
+                return Err(GeneratorError {
+                    kind: GeneratorErrorType::Asn1TypeMismatch,
+                    details: "Choice selection type should have been resolved at this point!"
+                        .into(),
+                    top_level_declaration: None,
+                })
+            }
         })
     }
 
